@@ -243,6 +243,16 @@ class CompoundUnary(Case):
             self.ensures = {"position-set-reflected-in-the-span": lambda i, r: Iff(
                 covers_pos(r, i.p), A(i, lo(i) + hi(i) - 1 - i.p)),
                 "span-kept-strand-reversed": lambda i, r: And(r.start == lo(i), r.end == hi(i), _reversed_strand(r, i.a))}
+        elif op == "is_contiguous":
+            self.props = ("C02", "C19", "C03")  # extraction / slicing decisions hang on these two flags
+            self.call = "(a.is_contiguous, a.is_overlapping)"
+            # documented on the abstract class: contiguous = no gaps between CONSECUTIVE blocks (each block starts where
+            # the previous one ends); overlapping = two blocks share a position
+            self.ensures = {
+                "contiguous-iff-every-block-starts-where-the-previous-ends": lambda i, r: Iff(
+                    _tb(r[0]), And(*[i.as_[k + 1] == i.ae[k] for k in range(self.n - 1)])),
+                "overlapping-iff-two-blocks-share-a-position": lambda i, r: Iff(_tb(r[1]), _self_overlap(i.as_, i.ae)),
+            }
         elif op == "merge_overlapping":
             self.call = "a.merge_overlapping()"
             self.ensures = {"position-set-kept": lambda i, r: Iff(covers_pos(r, i.p), A(i, i.p)),
@@ -270,9 +280,16 @@ class CompoundUnary(Case):
         return d
 
     def observe(self, r):
+        if self.op == "is_contiguous":
+            return [bool(x) for x in r]
         if isinstance(r, (list, tuple)):
             return [obs_loc(g) for g in r]
         return obs_loc(r)
+
+
+def _tb(x):
+    """truth value of a flag returned by the code (python bool or solver term)"""
+    return x
 
 
 def _maxl(xs):
@@ -389,6 +406,7 @@ CASES += [RelativeLocationForm(1, 2), RelativeLocationForm(2, 2), RelativeLocati
           RelativeLocationRefusal(1, 2), RelativeLocationRefusal(2, 2),
           RelativeLocationForm(1, 3, loc_empties=True), PairAlgebra(3, 1, "intersection", empties=True)]
 CASES += [CompoundUnary(op, 2) for op in ("gap_list", "gaps_location", "extend_absolute", "extend_relative", "shift_position",
-                                          "reverse", "merge_overlapping")]
+                                          "reverse", "merge_overlapping", "is_contiguous")]
+CASES += [CompoundUnary("is_contiguous", 3)]
 CASES += [CompoundUnary(op, 3, tier="thorough") for op in ("gap_list", "gaps_location", "extend_absolute", "shift_position",
                                                            "reverse", "merge_overlapping")]
